@@ -996,7 +996,7 @@ def jobs(tier, seed):
         for kinds in _sigs(n):
             tsets = []
             for k in kinds:
-                tsets.append([None] if k == '*' else (TYPES if n <= 2 else [None, 'str', 'int']))
+                tsets.append([None] if k == '*' else (TYPES if n <= 2 else [None, 'int']))
             for types in itertools.product(*tsets):
                 if n >= 2 and q and sum(1 for t in types if t not in (None, 'str')) > 1:
                     continue
